@@ -9,7 +9,7 @@ CONDS = [
     Cond('context_ok', 'get_pattern_context(p, i) == reference (line = 1 + breaks ending at or before i, column = offset in '
          'line + 1, context = the lines with a caret under that column) incl. i = len(p)',
          'p symbolic over {a, b, \\n, \\r}, len <= 4 quick / 7 thorough; every offset 0..len(p)',
-         timeout={'quick': 110, 'thorough': 1800}),
+         timeout={'quick': 110, 'thorough': 900}),
     Cond('error_attrs_ok', 'SelectorSyntaxError(msg, p, i).line/col/context == reference and context is in the message',
          'len(p) <= 3', timeout={'quick': 60, 'thorough': 300}),
     Cond('parser_offsets_ok', 'for every SelectorSyntaxError the real parser raises, (context, line, col) equals the '
@@ -24,7 +24,7 @@ CONDS = [
          'with and without a namespace map', timeout={'quick': 100, 'thorough': 600},
          parts={'quick': 3, 'thorough': 4}),
     Cond('pretty_terminates_ok', 'pretty() makes progress on every string over the characters reprs are made of',
-         'symbolic s, len <= 3 quick / 5 thorough over 19 characters', timeout={'quick': 110, 'thorough': 1800}),
+         'symbolic s, len <= 3 quick / 5 thorough over 19 characters', timeout={'quick': 110, 'thorough': 900}),
 ]
 
 
